@@ -32,10 +32,10 @@ BINOPS = [("Mul", "mul"), ("DivInt", "div_i"), ("DivFloat", "div_f"), ("Mod", "m
 LEFT_NAMES = ("left", "text", "column")
 RIGHT_NAMES = ("right", "pattern", "exponent")
 
-LABELS = (["EN1", "NS1", "NB1", "ER1", "RR1", "RR2", "RR3", "RN1", "RT1", "EU1", "EU2", "EU3", "EU4", "RF1", "IL1", "IL2", "TK1", "TK2", "TK3", "IN1", "IN2", "IN3"]
+LABELS = (["EN1", "NS1", "NB1", "ER1", "RR1", "RR2", "RR3", "RN1", "RT1", "EU1", "EU2", "EU3", "EU4", "RF1", "IL1", "IL2", "TK1", "TK2", "TK3", "IN1", "IN2", "IN3", "SK1", "SK2"]
           + ["EB1." + v for v, _ in BINOPS] + ["EB2." + v for v, _ in BINOPS])
 FUNCTIONS = ["new", "new_simple", "new_binop", "expands_range", "try_restrict_range", "restrict_null_literal", "expand_unary", "expand_binary", "range_from_ints", "into_literal_range",
-             "take_arm", "in_arm"]
+             "take_arm", "in_arm", "sort_key"]
 RLIMIT = 80
 
 ASSUMED = [
@@ -47,11 +47,14 @@ ASSUMED = [
              "literal keep the text; Option<String>::as_deref() == Some(lit) compares the text; Vec<Expr> -> [Expr; 2] (`try_into`) succeeds exactly for two items; error construction is opaque; "
              "unpack::<2>(func.args) is unpack_2 with the panic condition as precondition (unit std_arity proves it); Option::map / transpose / or have their std meaning (vstd); Clone of an expression is the identity",
      "keys": ["fn from_path", "fn slice_to_vec", "fn str_to_string", "fn lit_into_string", "fn alias_is", "fn vec_into_pair", "fn opaque_error", "fn unpack_2", "fn expr_clone", "fn string_clone", "fn ty_is_array", "spec fn is_array_typed", "fn write_pl", "Option::<T>::or"]},
+    {"what": "`name == \"std.neg\"` (String against a literal) compares the texts; SortDirection::default() is Asc (`#[default]` in ir/generic.rs); enum_as_inner's is_ident() tests the variant",
+     "keys": ["fn string_is", "fn sort_dir_default", "fn is_ident"]},
 ]
 TRUSTED = [
     "oracle (C02): a binary operator is the call of the std function the language reference names for it, with the operand written LEFT of the operator bound to the parameter `left` / `text` / (for `**`) "
     "`column` and the one written RIGHT of it to `right` / `pattern` / `exponent`; which POSITION that parameter has is read from std.prql on every run - so the swap for `**` in expand_binary and the "
     "declaration `let pow = exponent column` must agree; unary `-` / `!` are std.neg / std.not of the operand, `+x` is x, `==name` is `this.name == that.name`",
+    "oracle (C03): a sort key written `-e` sorts by e DESCENDING, whatever expression e is; any other key ascending by itself",
     "oracle (C03 / C04): `a..b` is the inclusive range from a to b, an omitted bound is open; `take n` is `take ..n` (the first n rows); `x | in a..b` is x >= a && x <= b with an open bound imposing nothing",
     "the slices drop the rest of resolve_special_func; resolve_special_func's `unpack` arities are discharged by std_arity",
 ]
@@ -386,6 +389,34 @@ def build(X):
                "        (!is_array_typed(func.args@[0]) && is_range_tuple(func.args@[0])) ==> r is Ok, // @IN3\n"
                "{\n    " + ia.text.strip() + "\n}\n")
 
+    # ---------------------------------------------------------------- one key of `sort`
+    sa = X.arm_body(TRANSFORMS, "resolve_special_func", '"sort" =>', name="sort_key")
+    mk = re.search(r"\.map\(\|expr\| \{(.*?)\n\s*\}\)\s*\.collect\(\)", sa.text, re.S)
+    mh = re.search(r"\.map\((\w+)\)\s*\.collect\(\)", sa.text)
+    if mk:
+        kbody = mk.group(1)
+        sa.rewrites.append({"rule": "slice", "what": "body of the closure `|expr| { .. }` that turns one key of `sort` into a ColumnSort, wrapped as fn sort_key(expr) -> ColumnSort"})
+    elif mh:
+        hf = X.fn(TRANSFORMS, mh.group(1))
+        kbody = hf.text[hf.text.index("{") + 1:hf.text.rindex("}")]
+        sa.rewrites.append({"rule": "R9", "what": "the keys of `sort` are mapped by the helper fn %s: its body is taken as fn sort_key(expr) -> ColumnSort" % mh.group(1)})
+    else:
+        raise ExtractionError("resolve_special_func, arm \"sort\": neither `.map(|expr| { .. }).collect()` nor `.map(helper).collect()` found")
+    kbody = re.sub(r"//[^\n]*\n", "\n", kbody)
+    kbody = re.sub(r"\bname == (\"[^\"]*\")", r"string_is(&name, \1)", kbody)
+    kbody = re.sub(r"\bSortDirection::default\(\)", "sort_dir_default()", kbody)
+    sdir = X.type_item("prqlc/prqlc/src/ir/generic.rs", "enum", "SortDirection").drop_attrs()
+    csort = X.type_item("prqlc/prqlc/src/ir/generic.rs", "struct", "ColumnSort").drop_attrs()
+    sa.text = (sdir.text + "\n" + csort.text + "\n"
+               "pub fn sort_key(expr: Expr) -> (r: ColumnSort<Box<Expr>>)\n"
+               "    // std.neg is declared with one parameter (std.prql: `let neg = expr -> ..`; unit std_arity) and only saturated calls become operators\n"
+               "    requires (expr.kind is RqOperator && expr.kind->RqOperator_name@ == \"std.neg\"@) ==> expr.kind->RqOperator_args@.len() == 1,\n    ensures\n"
+               "        // C03: `-e` is descending by e - for every expression e\n"
+               "        (expr.kind is RqOperator && expr.kind->RqOperator_name@ == \"std.neg\"@ && expr.kind->RqOperator_args@.len() == 1) ==> (r.direction is Desc && *r.column == expr.kind->RqOperator_args@[0]), // @SK1\n"
+               "        // any other key: ascending, by itself\n"
+               "        !(expr.kind is RqOperator && expr.kind->RqOperator_name@ == \"std.neg\"@) ==> (r.direction is Asc && *r.column == expr), // @SK2\n"
+               "{\n" + kbody + "\n}\n")
+    sa.text = re.sub(r"#\[default\]\s*", "", sa.text)
     vocab2 = r"""
 pub open spec fn is_range_tuple(e: Expr) -> bool {
     e.kind is Tuple && e.kind->Tuple_0@.len() == 2
@@ -403,6 +434,9 @@ pub open spec fn in_meaning(r: Expr, x: Expr, lo: Option<Expr>, hi: Option<Expr>
         (None, None) => r.kind == ExprKind::Literal(Literal::Boolean(true)),
     }
 }
+#[verifier::external_body] pub fn string_is(s: &String, lit: &str) -> (r: bool) ensures r == (s@ == lit@), { unimplemented!() }
+#[verifier::external_body] pub fn sort_dir_default() -> (r: SortDirection) ensures r is Asc, { unimplemented!() }
+impl ExprKind { #[verifier::external_body] pub fn is_ident(&self) -> (r: bool) ensures r == (*self is Ident), { unimplemented!() } }
 pub const NS_THIS: &'static str = "this";
 pub const NS_THAT: &'static str = "that";
 #[verifier::external_body] pub fn string_clone(s: &String) -> (r: String) ensures r@ == s@, { unimplemented!() }
@@ -429,7 +463,7 @@ proof fn lemma_range_round_trip(t: Expr, a: Expr, b: Expr)
 """
     impls = ("impl Expr {\n" + en.text + "\n}\nimpl FuncCall {\n" + ns.text + "\n}\n")
     return (PRELUDE + types + SPECS.replace('@PR_STRUCTS@', ue.text + '\n' + be.text) + vocab2 + impls + nb.text + "\n" + mb.text + "\n" + er.text + "\n" + rr.text + "\n" + rn.text + "\n" + eu.text + "\n" + eb.text + "\n" + rf.text + "\n"
-            + inner + "\n" + il.text + "\n" + tk.text + "\n" + ia.text + "\n" + lemma + "\n} // verus!\n"
+            + inner + "\n" + il.text + "\n" + tk.text + "\n" + ia.text + "\n" + sa.text + "\n" + lemma + "\n} // verus!\n"
             "impl core::fmt::Debug for Expr { fn fmt(&self, _f: &mut core::fmt::Formatter<'_>) -> core::fmt::Result { unimplemented!() } }\n"
             "impl core::fmt::Debug for ExprKind { fn fmt(&self, _f: &mut core::fmt::Formatter<'_>) -> core::fmt::Result { unimplemented!() } }\nfn main() {}\n")
 
